@@ -9,7 +9,9 @@
    a value records the rule name and the text it is applied to ([VTerm], [VJoin], [VConv]); the
    checker evaluates it.  Only the truthiness of converted values is decided here (it is what
    the "Multiple assignments" test reads).
-   Non-containment references ([Rule] right-hand sides) are outside the model: [EUnsup]. *)
+   Non-containment references ([Rule] right-hand sides) are kept as pending values [VRef name position class]
+   in the place (attribute / list position) where reference resolution later puts the resolved object;
+   resolution itself is the subject of C07-C11. *)
 From TxV Require Import Core.Base Core.Show Model.PegSyntax Model.Peg.
 
 Inductive rkind := RCommon | RAbstract | RMatch.
@@ -35,6 +37,7 @@ Inductive value :=
 | VJoin (rule : list N) (parts : list value)   (* process("".join(str(p) for p in parts), rule) *)
 | VConv (rule : list N) (v : value)        (* process(v, rule) *)
 | VObj (cls : list N) (p e : nat) (attrs : list (list N * value))
+| VRef (name : value) (p : nat) (cls : list N)   (* ObjCrossRef(obj_name, cls, position), pending *)
 | VList (l : list value).
 
 Inductive berr :=
@@ -161,6 +164,7 @@ Fixpoint val_truthy (v : value) : bool :=
                      match l with [] => false | x :: l' => str_nonempty x || go l' end) ps
   | VConv _ x => val_truthy x
   | VObj _ _ _ _ => true
+  | VRef _ _ _ => false        (* the attribute still holds its initial value while the model is built *)
   | VList l => match l with [] => false | _ => true end
   end.
 Definition is_vlist (v : value) : bool := match v with VList _ => true | _ => false end.
@@ -205,22 +209,22 @@ Fixpoint each_loop (l : list tree) (top : option cur) : bres (option cur) :=
   end.
 
 (* the loop of a list assignment (+= / *=) *)
-Fixpoint lst_loop (is_sep : tree -> bool) (a : list N) (is_ref : bool) (l : list tree)
+Fixpoint lst_loop (is_sep : tree -> bool) (a : list N) (refcls : option (list N)) (l : list tree)
          (top : option cur) : bres (option cur) :=
   match l with
   | [] => BOk top
   | k :: l' =>
-    if is_sep k then lst_loop is_sep a is_ref l' top
+    if is_sep k then lst_loop is_sep a refcls l' top
     else
       match rec k top with
-      | BOk (v, top1) =>
-        if is_ref then BErr EUnsup else
+      | BOk (v0, top1) =>
+        let v := match refcls with Some cl => VRef v0 (tpos k) cl | None => v0 end in
         match top1 with
         | None => BErr ECrash
         | Some c1 =>
           match get_val a (c_vals c1) with
-          | Some (VList vs) => lst_loop is_sep a is_ref l' (Some (cur_set a (VList (vs ++ [v])) c1))
-          | Some VNone => lst_loop is_sep a is_ref l' (Some (cur_set a (VList [v]) c1))
+          | Some (VList vs) => lst_loop is_sep a refcls l' (Some (cur_set a (VList (vs ++ [v])) c1))
+          | Some VNone => lst_loop is_sep a refcls l' (Some (cur_set a (VList [v]) c1))
           | _ => BErr ECrash
           end
         end
@@ -407,8 +411,8 @@ Fixpoint pnode (t : tree) (top : option cur) : bres (value * option cur) :=
                 | [] => BErr ECrash                                 (* node[0] *)
                 | k :: _ =>
                   match pnode k top with
-                  | BOk (v, top1) =>
-                    if (a_ref ma && negb (a_cont ma))%bool then BErr EUnsup else
+                  | BOk (v0, top1) =>
+                    let v := if (a_ref ma && negb (a_cont ma))%bool then VRef v0 (tpos k) (a_cls ma) else v0 in
                     match top1 with
                     | None => BErr ECrash
                     | Some c1 =>
@@ -422,7 +426,7 @@ Fixpoint pnode (t : tree) (top : option cur) : bres (value * option cur) :=
                 end
             end
           | OpList =>
-            match lst_loop pnode (is_sep_of nid) a (a_ref ma && negb (a_cont ma))%bool kids top with
+            match lst_loop pnode (is_sep_of nid) a (if (a_ref ma && negb (a_cont ma))%bool then Some (a_cls ma) else None) kids top with
             | BOk top' => BOk (VNone, top')
             | BErr e => BErr e
             end
@@ -471,6 +475,13 @@ Definition build (r : res) : bres value :=
   | _ => BErr ECrash
   end.
 
+(* the same on the flattened top-level result (what the reference semantics produce) *)
+Definition build_flat (l : list tree) : bres value :=
+  match l with
+  | [NT _ (t :: _)] => match pnode t None with BOk (v, _) => BOk v | BErr e => BErr e end
+  | _ => BErr ECrash
+  end.
+
 End Build.
 
 (* get_location(obj) for an object value: ((line, col), nchar) *)
@@ -511,6 +522,7 @@ Fixpoint show_value (v : value) : string :=
                     | [] => []
                     | (k, x) :: l' => ("(" ++ show_codes k ++ "," ++ show_value x ++ ")") :: go l'
                     end) attrs) ++ "])"
+  | VRef nm p cl => "('ref'," ++ show_value nm ++ "," ++ show_nat p ++ "," ++ show_codes cl ++ ")"
   | VList l => "('list',[" ++
       sjoin "," ((fix go (l : list value) : list string :=
                     match l with [] => [] | x :: l' => show_value x :: go l' end) l) ++ "])"
@@ -532,4 +544,18 @@ Definition show_build (g : grammar) (c : config) (mm : list ninfo) (tbl : list (
     end
   | SyntaxErr p => "('syntax'," ++ show_nat p ++ ")"
   | Aborted w => "('abort'," ++ show_nat w ++ ")"
+  end.
+
+(* assignment nodes occur only as direct children of common-rule nodes (what the grammar compiler
+   produces: an assignment belongs to the rule it is written in, its right-hand side is a match or a
+   rule reference) *)
+Fixpoint asg_placed (mm : list ninfo) (under_common : bool) (t : tree) : bool :=
+  match t with
+  | T _ _ _ _ => true
+  | NT nid kids =>
+    match nth nid mm IOther with
+    | IAsgn _ _ => under_common && forallb (asg_placed mm false) kids
+    | IRule RCommon _ _ => forallb (asg_placed mm true) kids
+    | _ => forallb (asg_placed mm false) kids
+    end
   end.
